@@ -106,6 +106,8 @@ pub struct ProbeStats {
     /// Last call: (verdict code, moved data?)
     pub last: Mutex<(u8, bool)>,
     pub errors: AtomicU64,
+    /// A work() call is in progress right now (set on entry, cleared on exit or unwind).
+    pub in_work: AtomicBool,
 }
 
 pub static CANCELLED: AtomicBool = AtomicBool::new(false);
@@ -160,7 +162,16 @@ impl Block for Probe {
             self.stats.calls_after_cancel.fetch_add(1, Ordering::SeqCst);
         }
         let before = rec::thread_data_events();
+        struct InWork<'a>(&'a AtomicBool);
+        impl Drop for InWork<'_> {
+            fn drop(&mut self) {
+                self.0.store(false, Ordering::SeqCst);
+            }
+        }
+        self.stats.in_work.store(true, Ordering::SeqCst);
+        let guard = InWork(&self.stats.in_work);
         let r = self.inner.work();
+        drop(guard);
         let moved = rec::thread_data_events() != before;
         *self.stats.last.lock().unwrap() = (verdict_code(&r), moved);
         if r.is_err() {
